@@ -43,9 +43,36 @@ func (ex *Exec) msgDigest(msg []Value) *Term {
 	return bvOfBytes(ex.sha256Of(msg))
 }
 
+type edSignApp struct{ pub, digest, sig *Term }
+type edVerifyApp struct{ pk, digest, sig, res *Term }
+
+// Signatures produced by Sign in the model are bound to their key and
+// message: Verify(pk, m, Sign(sk, m0)) implies pk = pub(sk) and m = m0 (no
+// cross-key / cross-message validity of honestly generated signatures).
+// Signature bytes chosen by the harness stay completely unconstrained.
+func (ex *Exec) edBind(s edSignApp, v edVerifyApp) {
+	if s.sig.S == v.sig.S && s.pub.S == v.pk.S && s.digest.S == v.digest.S {
+		return
+	}
+	ex.addPC(Implies(And(v.res, Eq(v.sig, s.sig)), And(Eq(v.pk, s.pub), Eq(v.digest, s.digest))))
+}
+
 func (ex *Exec) edVerifyTerm(pk, msg, sig []Value) *Term {
 	f := UF("edverify", []Sort{SBV(256), SBV(256), SBV(512)}, SBool)
-	return App(f, SBool, bvOfBytes(pk), ex.msgDigest(msg), bvOfBytes(sig))
+	v := edVerifyApp{pk: bvOfBytes(pk), digest: ex.msgDigest(msg), sig: bvOfBytes(sig)}
+	v.res = App(f, SBool, v.pk, v.digest, v.sig)
+	vs, _ := ex.side["edverifies"].([]edVerifyApp)
+	for _, o := range vs {
+		if o.res.S == v.res.S {
+			return v.res
+		}
+	}
+	ex.side["edverifies"] = append(vs, v)
+	ss, _ := ex.side["edsigns"].([]edSignApp)
+	for _, s := range ss {
+		ex.edBind(s, v)
+	}
+	return v.res
 }
 
 func registerCrypto(e *Engine) {
@@ -68,8 +95,24 @@ func registerCrypto(e *Engine) {
 			ex.rtPanic(fmt.Sprintf("ed25519: bad private key length: %d", len(sk)))
 		}
 		fn := UF("edsign", []Sort{SBV(512), SBV(256)}, SBV(512))
-		sigT := App(fn, SBV(512), bvOfBytes(sk), ex.msgDigest(msg))
+		dg := ex.msgDigest(msg)
+		sigT := App(fn, SBV(512), bvOfBytes(sk), dg)
 		sig := bvBytes(sigT, 64)
+		sa := edSignApp{pub: bvOfBytes(sk[32:]), digest: dg, sig: sigT}
+		ss, _ := ex.side["edsigns"].([]edSignApp)
+		dup := false
+		for _, o := range ss {
+			if o.sig.S == sa.sig.S {
+				dup = true
+			}
+		}
+		if !dup {
+			ex.side["edsigns"] = append(ss, sa)
+			vs, _ := ex.side["edverifies"].([]edVerifyApp)
+			for _, v := range vs {
+				ex.edBind(sa, v)
+			}
+		}
 		ex.addPC(ex.edVerifyTerm(sk[32:], msg, sig))
 		return sig
 	}
